@@ -485,12 +485,12 @@ impl Check for C20 {
             assumptions: vec!["catch and timeout bodies are not rendered in the tree text (covered by C06 / C19)".into()],
             budget_s: tier.pick(50, 600),
             exhaustive_when_uncapped: true,
-            bounds: json!({"shape_nodes": tier.pick(7, 9), "toggle_combinations": tier.pick("singles and pairs (pairs strided by 3)", "singles and all pairs")}),
+            bounds: json!({"shape_nodes": tier.pick(7, 10), "toggle_combinations": tier.pick("singles and pairs (pairs strided by 3)", "singles and all pairs")}),
         }
     }
     fn items(&self, tier: Tier) -> Vec<Value> {
         let nt = toggles().len();
-        let mut v = vec![json!({"id": "shapes", "kind": "shapes", "max_nodes": tier.pick(7, 9)}), json!({"id": "singles+duplicates", "kind": "singles"})];
+        let mut v = vec![json!({"id": "shapes", "kind": "shapes", "max_nodes": tier.pick(7, 10)}), json!({"id": "singles+duplicates", "kind": "singles"})];
         for i in 0..nt {
             v.push(json!({"id": format!("pairs/{i}"), "scenario": "pairs", "kind": "pairs", "first": i}));
         }
